@@ -61,6 +61,17 @@ where
     }
 }
 
+#[cfg(feature = "verif-hooks")]
+impl<D, E> Body<D, E> {
+    /// Returns a verification probe if this is a streaming body.
+    pub fn verif_probe(&self) -> Option<crate::verif::Probe<E>> {
+        match &self.0 {
+            BodyStream::Chunker(c) => Some(c.verif_probe()),
+            _ => None,
+        }
+    }
+}
+
 impl<D, E> Body<D, E> {
     /// Returns a 0-byte body.
     #[inline]
